@@ -1004,9 +1004,14 @@ Htagnewref(int32  file_id, /* IN: File ID the tag/refs are in */
     if ((tip_ptr = (tag_info **)tbbtdfind(file_rec->tag_tree, (void *)&base_tag, NULL)) == NULL)
         ret_value = 1;        /* The first available ref */
     else {                    /* found an existing tag */
+        int32 next_ref;
+
         tinfo_ptr = *tip_ptr; /* get the pointer to the tag info */
-        if ((ret_value = (uint16)bv_find_next_zero(tinfo_ptr->b)) == (uint16)FAIL)
+        if ((next_ref = bv_find_next_zero(tinfo_ptr->b)) == FAIL)
             HGOTO_ERROR(DFE_BVFIND, 0);
+        if (next_ref > (int32)MAX_REF) /* every ref of this tag is in use */
+            HGOTO_ERROR(DFE_NOREF, 0);
+        ret_value = (uint16)next_ref;
     }
 
 done:
